@@ -29,7 +29,16 @@ def _scene_history(rng):
     assign = {k: k for k in tracks}
     nid = ntr + 1
     frames = []
+    # in some histories one label vanishes from the estimates for a frame in the middle (track lost) and is re-acquired afterwards, possibly
+    # under new ids: the frame without any result of that label is still the `previous frame` of the next one
+    gap_label = rng.choice(["car", "pedestrian"]) if (nfr >= 3 and rng.random() < 0.5) else None
+    gap_frame = rng.randint(1, nfr - 2) if gap_label else -1
     for t in range(nfr):
+        if t == gap_frame + 1 and gap_label:
+            for k_ in tracks:
+                if tracks[k_]["label"] == gap_label and rng.random() < 0.7:
+                    assign[k_] = nid
+                    nid += 1
         if t > 0:
             u = rng.random()
             ks = list(tracks)
@@ -45,12 +54,12 @@ def _scene_history(rng):
                 continue
             gx, gy = tr["x"] + tr["vx"] * t, tr["y"] + tr["vy"] * t
             gts.append(dict(id=k, x=gx, y=gy, label=tr["label"]))
-            if rng.random() < 0.85:
+            if rng.random() < 0.85 and not (t == gap_frame and tr["label"] == gap_label):
                 off = rng.choice([0.1, 0.3, 0.6, 1.6, 2.5])
                 ang = rng.uniform(0, 2 * math.pi)
                 el = tr["label"] if rng.random() < 0.9 else "unknown"
                 ests.append(dict(id=assign[k], x=gx + off * math.cos(ang), y=gy + off * math.sin(ang), label=el, conf=rng.uniform(0.3, 0.99)))
-        for _ in range(rng.choice([0, 0, 1])):
+        for _ in range(rng.choice([0, 0, 1]) if not (t == gap_frame and gap_label == "car") else 0):
             ests.append(dict(id=nid, x=rng.uniform(-60, 60), y=rng.uniform(-60, 60), label="car", conf=rng.uniform(0.3, 0.99)))
             nid += 1
         frames.append((gts, ests))
